@@ -57,6 +57,12 @@ func rebootPersistedStore(config *Config, log *zap.SugaredLogger, stats tally.Sc
 		}
 		if !ok {
 			log.With("key", key).Warn("Could not reboot blob from disk - its parent directory is there but the blob is missing")
+			// A crash in the middle of Create, Delete or eviction leaves a partial blob directory behind.
+			// Remove it, otherwise the key can never be created or marked complete again.
+			err = os.RemoveAll(pather.dirPath(key, complete))
+			if err != nil {
+				return nil, fmt.Errorf("remove leftover directory of blob that could not be rebooted: %w", err)
+			}
 			continue
 		}
 		if b.complete && b.evictable {
